@@ -120,7 +120,8 @@ class GenB(GenA):
             if c is None:
                 continue
             if c['c'] == 'dilute' and c.get('name') and self.run.known is not None \
-                    and self.run.known.active('recipe_dilute_rename') and not self.p.get('allow_known'):
+                    and self.run.known.active('recipe_dilute_rename') and not self.p.get('allow_known') \
+                    and self.p.get('prop') in ('C09', 'C15', 'C17', 'C18', None):
                 del c['name']                   # known finding: renaming dilutes are only exercised by its witness
             if c['c'] == 'fill_to' and len(c['tgt']) > 1 and self.run.known is not None \
                     and self.run.known.active('recipe_fill_to_slice') and not self.p.get('allow_known'):
